@@ -1,6 +1,6 @@
 """C04 — the gate chain that keeps unsigned data out of a replica."""
 from ..engine import *
-from ..analysis import term_str, strip, roots, subterms, contains, callee_of
+from ..analysis import term_str, term_sig, strip, roots, subterms, contains, callee_of
 from .names import *
 
 P = "C04"
@@ -317,6 +317,31 @@ def r3b(ctx):
                   "NodeQueue::shift hands out (or drops) the extra node without matching its index", key="C04|C04.R3|NodeQueue::shift|extra index match")
 
 
+def r3c(ctx):
+    """NodeQueue::shift is the only place where a proof node is tied to a tree position (sibling
+    indices are not hashed into parents): whatever it hands out must have exactly the index asked for"""
+    rule = "C04.R3"
+    fs = ctx.fn(NQ_SHIFT)
+    if not need(ctx, P, rule, NQ_SHIFT, fs):
+        return
+    oks = ok_returns(fs)
+    if not need(ctx, P, rule, "NodeQueue::shift: Ok(node) returns", oks):
+        return
+    eqs = list(bool_switches(fs, lambda o: o[0] == "bin" and o[1] == "Eq"))
+    for bb, _, t in oks:
+        v = strip(agg_field(t, "0")) if is_agg(t, "Ok") else strip(t)
+        want = term_sig(("field", v, "index"))
+        guards = []
+        for b, o, tr, fl in eqs:
+            sides = [strip(o[2]), strip(o[3])]
+            if ("param", "index") in sides and any(term_sig(x) == want or (x[0] == "field" and x[2] == "index" and term_sig(strip(x[1])) == term_sig(v)) for x in sides):
+                guards.append(tr)
+        good = any(g is not None and fs.dominates(g, bb) for g in guards)
+        ctx.check(P, rule, "shift hands out `%s` only when its index equals the index asked for" % term_str(v)[:50], good, "node.index == index dominates Ok(node)",
+                  "NodeQueue::shift returns %s without an equality test of its index against the requested index on the way: a proof node labelled with another index is accepted in that position" % term_str(v)[:60],
+                  [loc(fs, bb)], key="C04|C04.R3|NodeQueue::shift|index equality|%s" % ("extra" if "extra" in term_str(v) else "nodes"))
+
+
 def _all_ok_dominated(fa, okbb):
     oks = ok_returns(fa)
     return oks, [(b, s) for b, s, t in oks if not fa.dominates(okbb, b)]
@@ -461,7 +486,7 @@ def r6(ctx):
                 ctx.check(P, rule, "%s stores the computed hash" % nm, term_has_call(h, HASH_DATA if f is fb else HASH_PARENT) is not None, "hash from Hash::*", "%s stores hash %s" % (nm, term_str(h)[:80]))
 
 
-RULES = [r1, r1b, r2, r3, r3b, r4, r5, r6]
+RULES = [r1, r1b, r2, r3, r3b, r3c, r4, r5, r6]
 
 EXPLANATION = ("C04 (forged proofs never change a replica): decides the gate chain as dominance facts — fork and commitable gates and a ?-checked "
                "verify_proof dominate every storage/oplog/bitfield/tree/header/event effect of verify_and_apply_proof and the applied changeset is the verified one (R1); "
